@@ -250,7 +250,13 @@ def run_shard(desc):
             a, b = rand_pair(rnd)
             op = rnd.choice(OPS)
             form = rnd.random()
-            if form < 0.12 and op in ("<", "<=", ">", ">=", "==", "!="):
+            if form < 0.04:
+                # a zero with the sign bit set (only prefix minus makes one) against zeros and tiny numbers of either sign
+                z = ["un", "-", ["num", "0", rnd.choice([0, 0, 2, 28])]] if rnd.random() < 0.7 else ["un", "-", ["bin", "-", gen.num_lit(*a), gen.num_lit(*a)]]
+                o = rnd.choice([["num", "0", rnd.choice([0, 1, 28])], ["un", "-", ["num", "0", 0]], gen.num_lit(1, 28), gen.num_lit(-1, 28), gen.num_lit(*b)])
+                t = ["bin", op, z, o] if rnd.random() < 0.5 else ["bin", op, o, z]
+                vars_ = {}
+            elif form < 0.12 and op in ("<", "<=", ">", ">=", "==", "!="):
                 # the negated forms, written both ways: `a not >= b` and `not (a >= b)`
                 t = ["un", "not", ["bin", op, gen.num_lit(*a), gen.num_lit(*b)]]
                 vars_ = {}
